@@ -1027,6 +1027,7 @@ func checkNoPanicWithLockHeld(c *core.Ctx) {
 // is the innermost unwound return address, i.e. it is read before that address is dropped from the list.
 func checkOverflowUnwindOrder(c *core.Ctx) {
 	n := 0
+	beforePreds := beforeTrampolinePredicates(c)
 	for _, fn := range moduleFns(c, "internal/engine/wazevo") {
 		for _, b := range fn.Blocks {
 			for _, in := range b.Instrs {
@@ -1035,7 +1036,7 @@ func checkOverflowUnwindOrder(c *core.Ctx) {
 					continue
 				}
 				f := call.Common().StaticCallee()
-				if f == nil || f.Name() != "isListenerBeforeTrampoline" || len(call.Common().Args) < 2 {
+				if f == nil || !beforePreds[f] || len(call.Common().Args) < 2 {
 					continue
 				}
 				// the argument: element 0 of a slice
@@ -1575,4 +1576,465 @@ func checkPinnedFieldsNotReassigned(c *core.Ctx) {
 	c.Check(len(bad) == 0, "R09.10", "instance fields pinned by raw element addresses ("+strings.Join(names, ", ")+") are not reassigned on close paths", pos,
 		fmt.Sprintf("%d close-path functions of ModuleInstance examined, no assignment to a pinned field", len(reach)),
 		strings.Join(bad, "; ")+": the compiler's module context holds &field[0] as a plain integer, and functions that live importers took from the closed instance keep running: their memory.init/table.init then read freed and reused heap")
+}
+
+// ---- rules added after the seventh round of seeded changes ----
+
+// checkReusedFrameNamesCallee (R01.16): where the interpreter re-uses a call frame for a tail call (resets its pc), it also
+// records the callee in the frame: the next tail call from that frame sizes its drop by the frame's function.
+func checkReusedFrameNamesCallee(c *core.Ctx) {
+	p := c.Pkg("internal/engine/interpreter")
+	if p == nil {
+		return
+	}
+	info := p.TypesInfo
+	n := 0
+	core.AllFuncDecls(p, func(fd *ast.FuncDecl) {
+		ast.Inspect(fd.Body, func(x ast.Node) bool {
+			cc, ok := x.(*ast.CaseClause)
+			if !ok || len(cc.List) == 0 || !strings.Contains(constNameOf(info, cc.List[0]), "TailCall") {
+				return true
+			}
+			resets, names := false, false
+			var pos token.Pos
+			for _, sn := range armScope(p, cc) {
+				ast.Inspect(sn, func(y ast.Node) bool {
+					as, ok := y.(*ast.AssignStmt)
+					if !ok {
+						return true
+					}
+					for i, l := range as.Lhs {
+						f := core.FieldOf(info, l)
+						if f == nil {
+							continue
+						}
+						if ow := core.NamedOf(info.TypeOf(l.(*ast.SelectorExpr).X)); ow == nil || ow.Obj().Name() != "callFrame" {
+							continue
+						}
+						switch f.Name() {
+						case "pc":
+							if i < len(as.Rhs) || len(as.Rhs) == 1 {
+								r := as.Rhs[len(as.Rhs)-1]
+								if i < len(as.Rhs) {
+									r = as.Rhs[i]
+								}
+								if k, isK := core.ConstVal(info, r); isK && k == 0 {
+									resets, pos = true, as.Pos()
+								}
+							}
+						case "f":
+							names = true
+						}
+					}
+					return true
+				})
+			}
+			if !resets {
+				return true
+			}
+			n++
+			c.Check(names, "R01.16", "interpreter arm "+constNameOf(info, cc.List[0])+": a frame re-used for a tail call records the callee", pos,
+				"the arm (or the method it calls) assigns frame.f where it resets frame.pc",
+				"the frame is re-used (pc reset to 0) without frame.f being set to the callee: the next tail call from this frame computes what to drop from the previous function's parameter count, and the caller's locals and operands are read one or more slots off (interpreter only)")
+			return true
+		})
+	})
+	if n == 0 {
+		c.Undecided("R01.16", "interpreter tail-call arms that re-use the frame", 0, "none found")
+	}
+}
+
+// checkNameIndexesBounded (R03.20): an index taken from a decoded name map (NameAssoc.Index, never validated by the
+// decoder) is compared with a length before it indexes a slice.
+func checkNameIndexesBounded(c *core.Ctx) {
+	n := 0
+	for _, rel := range []string{"internal/wasm", "internal/wasmdebug", "internal/engine/interpreter", "internal/engine/wazevo"} {
+		p := c.Pkg(rel)
+		if p == nil {
+			continue
+		}
+		info := p.TypesInfo
+		isNameIndex := func(e ast.Expr) string {
+			r := ""
+			ast.Inspect(e, func(y ast.Node) bool {
+				if se, ok := y.(*ast.SelectorExpr); ok && se.Sel.Name == "Index" {
+					if ow := core.NamedOf(info.TypeOf(se.X)); ow != nil && ow.Obj().Name() == "NameAssoc" {
+						r = core.ExprStr(se)
+					}
+				}
+				return true
+			})
+			return r
+		}
+		core.AllFuncDecls(p, func(fd *ast.FuncDecl) {
+			var stack []ast.Node
+			ast.Inspect(fd.Body, func(x ast.Node) bool {
+				if x == nil {
+					stack = stack[:len(stack)-1]
+					return true
+				}
+				stack = append(stack, x)
+				ix, ok := x.(*ast.IndexExpr)
+				if !ok {
+					return true
+				}
+				if _, isSlice := info.TypeOf(ix.X).Underlying().(*types.Slice); !isSlice {
+					return true
+				}
+				sel := isNameIndex(ix.Index)
+				if sel == "" {
+					return true
+				}
+				n++
+				bounded := false
+				for _, anc := range stack {
+					if is, ok := anc.(*ast.IfStmt); ok && is.Body.Pos() <= ix.Pos() && ix.End() <= is.Body.End() {
+						ast.Inspect(is.Cond, func(y ast.Node) bool {
+							if be, ok := y.(*ast.BinaryExpr); ok && (be.Op == token.LSS || be.Op == token.LEQ || be.Op == token.GTR || be.Op == token.GEQ) {
+								if strings.Contains(core.ExprStr(be), sel) {
+									bounded = true
+								}
+							}
+							return true
+						})
+					}
+				}
+				c.Check(bounded, "R03.20", fmt.Sprintf("%s: slice index #%d taken from a decoded name map is bounded", core.FuncName(p, fd), n), ix.Pos(),
+					"the indexing stands under a comparison of "+sel+" with a bound",
+					"`"+core.ExprStr(ix)+"` indexes a slice with an index of the name section, which the decoder never validates (sparse or out-of-range local names are legal input), without a comparison with the slice's length: building the function definitions of a valid module panics with index out of range – in the trap path the panic escapes Call")
+				return true
+			})
+		})
+	}
+	c.Count("name_map_index_uses", n)
+	if n == 0 {
+		c.Discharge("R03.20", "no slice is indexed by an index of a decoded name map", 0, "no use found")
+	}
+}
+
+// checkRexByteRegisterSiblings (R05.9): the amd64 encoder forces a REX prefix for byte operands in the registers whose
+// encoding is 4..7 (spl, bpl, sil, dil): every site that decides this uses the same range.
+func checkRexByteRegisterSiblings(c *core.Ctx) {
+	p := c.Pkg("internal/engine/wazevo/backend/isa/amd64")
+	if p == nil {
+		return
+	}
+	info := p.TypesInfo
+	type site struct {
+		pos  token.Pos
+		form string
+	}
+	var sites []site
+	rangeOf := func(cond ast.Expr, body *ast.BlockStmt) string {
+		lo, hi := int64(-1), int64(-1)
+		extra := ""
+		var scan func(e ast.Node, d int)
+		scan = func(e ast.Node, d int) {
+			ast.Inspect(e, func(y ast.Node) bool {
+				switch z := y.(type) {
+				case *ast.BinaryExpr:
+					if k, isK := core.ConstVal(info, z.Y); isK {
+						switch z.Op {
+						case token.GEQ:
+							lo = k
+						case token.GTR:
+							lo = k + 1
+						case token.LEQ:
+							hi = k
+						case token.LSS:
+							hi = k - 1
+						case token.NEQ, token.EQL:
+							extra += fmt.Sprintf(" %s%d", z.Op, k)
+						}
+					}
+				case *ast.CallExpr:
+					// a predicate of the package (one level)
+					if f := core.Callee(info, z); f != nil && f.Pkg() == p.Types && d < 1 {
+						if hd := declOf(p, f); hd != nil && len(hd.Body.List) <= 3 {
+							scan(hd.Body, d+1)
+						}
+					}
+				}
+				return true
+			})
+		}
+		scan(cond, 0)
+		_ = body
+		if lo >= 0 && hi >= 0 {
+			return fmt.Sprintf("encoding in [%d,%d]%s", lo, hi, extra)
+		}
+		return ""
+	}
+	core.AllFuncDecls(p, func(fd *ast.FuncDecl) {
+		var stack []ast.Node
+		ast.Inspect(fd.Body, func(x ast.Node) bool {
+			if x == nil {
+				stack = stack[:len(stack)-1]
+				return true
+			}
+			stack = append(stack, x)
+			call, ok := x.(*ast.CallExpr)
+			if !ok {
+				return true
+			}
+			se, ok := call.Fun.(*ast.SelectorExpr)
+			if !ok || se.Sel.Name != "always" {
+				return true
+			}
+			if t := info.TypeOf(se.X); t == nil || !strings.HasSuffix(t.String(), "rexInfo") {
+				return true
+			}
+			// the innermost guard
+			for i := len(stack) - 2; i >= 0; i-- {
+				switch g := stack[i].(type) {
+				case *ast.IfStmt:
+					if g.Body.Pos() <= call.Pos() && call.End() <= g.Body.End() {
+						init := ""
+						if g.Init != nil {
+							init = "init"
+						}
+						_ = init
+						var condNodes ast.Expr = g.Cond
+						f := rangeOf(condNodes, g.Body)
+						if f == "" {
+							f = "if " + core.ExprStr(g.Cond)
+						}
+						sites = append(sites, site{call.Pos(), f})
+						return true
+					}
+				case *ast.CaseClause:
+					if len(g.List) > 0 {
+						if _, isK := core.ConstVal(info, g.List[0]); isK || constNameOf(info, g.List[0]) != "" {
+							// a switch over registers: which ones?
+							var names []string
+							for _, l := range g.List {
+								names = append(names, core.ExprStr(l))
+							}
+							// only when the switch is about a register (not an operand kind / opcode)
+							if t := info.TypeOf(g.List[0]); t != nil && strings.Contains(t.String(), "RealReg") {
+								sort.Strings(names)
+								sites = append(sites, site{call.Pos(), "registers {" + strings.Join(names, ",") + "}"})
+								return true
+							}
+						}
+					}
+				case *ast.FuncDecl, *ast.FuncLit:
+					return true
+				}
+			}
+			return true
+		})
+	})
+	count := map[string]int{}
+	for _, s := range sites {
+		count[s.form]++
+	}
+	major, mn := "", 0
+	for f, k := range count {
+		if k > mn || (k == mn && f < major) {
+			major, mn = f, k
+		}
+	}
+	if len(sites) < 3 {
+		c.Undecided("R05.9", "conditional REX prefixes of the amd64 encoder", 0, fmt.Sprintf("only %d guarded rexInfo.always() sites found", len(sites)))
+		return
+	}
+	var bad []string
+	var pos token.Pos
+	for _, s := range sites {
+		if s.form != major && (strings.HasPrefix(major, "encoding in") && (strings.HasPrefix(s.form, "registers") || strings.HasPrefix(s.form, "encoding in"))) {
+			bad = append(bad, s.form+" at "+c.Pos(s.pos))
+			pos = s.pos
+		}
+	}
+	c.Check(len(bad) == 0, "R05.9", "amd64 encoder: every site that forces a REX prefix for a byte register uses the same register range", pos,
+		fmt.Sprintf("%d guarded sites, %d of the form `%s`", len(sites), mn, major),
+		fmt.Sprintf("%d sites decide it with `%s`, but: %s – a byte operand in a register left out is encoded as one of the legacy high-byte registers (%%sil read as %%dh), so i32.extend8_s and byte loads/stores of that register compute with bits 8..15 of another register", mn, major, strings.Join(bad, "; ")))
+}
+
+// checkHostCallTypesStateless (R08.14): what computes the types by which the compiler normalises the slots of a host call
+// keeps no state in the call engine: the types are read from the callee's module context at every call.
+func checkHostCallTypesStateless(c *core.Ctx) {
+	ce := namedIn(c, wzv, "callEngine")
+	if ce == nil {
+		return
+	}
+	n := 0
+	for _, fn := range moduleFns(c, wzv) {
+		if fn.Parent() != nil {
+			continue
+		}
+		// functions that hand out value types or a function type
+		res := fn.Signature.Results()
+		if res.Len() != 1 {
+			continue
+		}
+		rt := res.At(0).Type().String()
+		if !strings.HasSuffix(rt, "[]byte") && !strings.HasSuffix(rt, "api.ValueType") && !strings.HasSuffix(rt, "wasm.ValueType") && !strings.HasSuffix(rt, "wasm.FunctionType") {
+			continue
+		}
+		if !strings.Contains(strings.ToLower(fn.Name()), "type") {
+			continue
+		}
+		n++
+		bad := ""
+		var pos token.Pos
+		for _, b := range fn.Blocks {
+			for _, in := range b.Instrs {
+				if st, ok := in.(*ssa.Store); ok {
+					if fa, ok := st.Addr.(*ssa.FieldAddr); ok && core.NamedOf(fa.X.Type()) == ce {
+						if f := fieldOfAddr(fa); f != nil {
+							bad, pos = f.Name(), st.Pos()
+						}
+					}
+				}
+			}
+		}
+		c.Check(bad == "", "R08.14", core.SSAFuncName(fn)+" keeps no state in the call engine", pos,
+			"the types are computed from its arguments only",
+			"the function that yields the types of a host call remembers them in callEngine."+bad+": a cached entry keyed by less than the callee (e.g. the exit code, which names a function only within its host module) normalises the next call's slots by another function's types – a 64-bit argument loses its upper half")
+	}
+	if n == 0 {
+		c.Undecided("R08.14", "functions yielding the types of a host call", 0, "none found")
+	}
+}
+
+// checkFakeClockHostIndependent (R18.10): the default (fake) clock, random and sleep sources of internal/platform do not
+// depend on the host: no reference to time.Local, the environment, or the real clock in the fake sources and in the
+// package-level values they read.
+func checkFakeClockHostIndependent(c *core.Ctx) {
+	fns := moduleFns(c, "internal/platform")
+	if len(fns) == 0 {
+		return
+	}
+	// the fake sources, the functions they reach inside the package, and the package initialiser of what they read
+	reach := map[*ssa.Function]bool{}
+	var work []*ssa.Function
+	for _, fn := range fns {
+		if strings.Contains(fn.Name(), "Fake") || fn.Name() == "init" {
+			top := fn
+			for top.Parent() != nil {
+				top = top.Parent()
+			}
+			if !reach[fn] {
+				reach[fn] = true
+				work = append(work, fn)
+			}
+		}
+	}
+	for len(work) > 0 {
+		fn := work[len(work)-1]
+		work = work[:len(work)-1]
+		for _, b := range fn.Blocks {
+			for _, in := range b.Instrs {
+				if call, ok := in.(ssa.CallInstruction); ok {
+					if sc := call.Common().StaticCallee(); sc != nil && sc.Blocks != nil && sc.Pkg == fn.Pkg && !reach[sc] {
+						reach[sc] = true
+						work = append(work, sc)
+					}
+				}
+				if mc, ok := in.(*ssa.MakeClosure); ok {
+					if f, ok := mc.Fn.(*ssa.Function); ok && !reach[f] {
+						reach[f] = true
+						work = append(work, f)
+					}
+				}
+			}
+		}
+	}
+	var bad []string
+	var pos token.Pos
+	n := 0
+	var list []*ssa.Function
+	for fn := range reach {
+		list = append(list, fn)
+	}
+	sort.Slice(list, func(i, j int) bool { return list[i].String() < list[j].String() })
+	for _, fn := range list {
+		n++
+		for _, b := range fn.Blocks {
+			for _, in := range b.Instrs {
+				for _, op := range in.Operands(nil) {
+					if g, ok := (*op).(*ssa.Global); ok && g.Pkg != nil && g.Pkg.Pkg.Path() == "time" && g.Name() == "Local" {
+						bad = append(bad, "time.Local read in "+fn.Name()+" at "+c.Pos(in.Pos()))
+						pos = in.Pos()
+					}
+				}
+				if call, ok := in.(ssa.CallInstruction); ok {
+					if sc := call.Common().StaticCallee(); sc != nil && sc.Pkg != nil {
+						switch sc.Pkg.Pkg.Path() + "." + sc.Name() {
+						case "time.Now", "time.LoadLocation", "os.Getenv", "os.LookupEnv", "os.Hostname":
+							// (the package initialiser legitimately reads the real clock for the real monotonic source)
+							if fn.Name() != "init" {
+								bad = append(bad, sc.Pkg.Pkg.Path()+"."+sc.Name()+" called in "+fn.Name()+" at "+c.Pos(in.Pos()))
+								pos = in.Pos()
+							}
+						}
+					}
+				}
+			}
+		}
+	}
+	c.Check(len(bad) == 0, "R18.10", "the default (fake) sources of internal/platform do not depend on the host", pos,
+		fmt.Sprintf("%d functions (fake sources, what they reach, the package initialiser): no time.Local, environment or real-clock reference", n),
+		strings.Join(bad, "; ")+": what a guest observes under the default configuration (clock_time_get, …) then depends on the host's time zone or environment, and differs between processes")
+}
+
+// beforeTrampolinePredicates: the functions of the compiler that decide "is this address inside a Before trampoline": they
+// take an address and range over the Before trampolines (whatever they are called).
+func beforeTrampolinePredicates(c *core.Ctx) map[*ssa.Function]bool {
+	out := map[*ssa.Function]bool{}
+	for _, fn := range moduleFns(c, wzv) {
+		if fn.Parent() != nil || fn.Signature.Results().Len() != 1 {
+			continue
+		}
+		if b, ok := fn.Signature.Results().At(0).Type().Underlying().(*types.Basic); !ok || b.Kind() != types.Bool {
+			continue
+		}
+		takesAddr := false
+		for i := 0; i < fn.Signature.Params().Len(); i++ {
+			if b, ok := fn.Signature.Params().At(i).Type().Underlying().(*types.Basic); ok && b.Kind() == types.Uintptr {
+				takesAddr = true
+			}
+		}
+		if !takesAddr {
+			continue
+		}
+		for _, b := range fn.Blocks {
+			for _, in := range b.Instrs {
+				if fa, ok := in.(*ssa.FieldAddr); ok {
+					if f := fieldOfAddr(fa); f != nil && f.Name() == "listenerBeforeTrampolines" {
+						out[fn] = true
+					}
+				}
+			}
+		}
+	}
+	return out
+}
+
+// checkBeforePredicateOnlyBefore (R20.16): the predicate by which the stack-overflow exit path recognises "the stack ran out
+// on the way to a function's Before" looks at the Before trampolines only: a function whose After trampoline overflowed had
+// its Before and must get Abort.
+func checkBeforePredicateOnlyBefore(c *core.Ctx) {
+	preds := beforeTrampolinePredicates(c)
+	if len(preds) == 0 {
+		c.Undecided("R20.16", "Before-trampoline predicate of the compiler", 0, "no function taking an address and ranging over the Before trampolines found")
+		return
+	}
+	for fn := range preds {
+		after := token.NoPos
+		for _, b := range fn.Blocks {
+			for _, in := range b.Instrs {
+				if fa, ok := in.(*ssa.FieldAddr); ok {
+					if f := fieldOfAddr(fa); f != nil && f.Name() == "listenerAfterTrampolines" {
+						after = fa.Pos()
+					}
+				}
+			}
+		}
+		c.Check(after == token.NoPos, "R20.16", "the Before-trampoline predicate looks at the Before trampolines only", fn.Pos(),
+			"no reference to the After trampolines",
+			"the predicate used to skip the function whose Before was not reached also matches the After trampolines (at "+c.Pos(after)+"): when the stack runs out in an After trampoline the function – which had its Before – is skipped and gets neither After nor Abort")
+	}
 }
